@@ -187,6 +187,14 @@ func genC11(r *core.Run, i int) *c11Case {
 				if k+1 < len(s.Segs) {
 					c.T1 = s.Segs[k+1].Text
 				}
+				if ind := sg.Dump.F.Indent; ind != "" && strings.HasPrefix(string(c.T1), ind) && rr.Chance(1, 3) {
+					// the text after an indented dump is less indented than the dump (a test log going on): the line
+					// cannot belong to the dump whatever it says, the snapshot is due once it is delivered
+					rest := string(c.T1)[len(ind):]
+					if first := strings.TrimRight(strings.SplitN(rest, "\n", 2)[0], "\r"); first != "" && !strings.HasPrefix(rest, ind) {
+						c.T1 = gen.BinStr(rest)
+					}
+				}
 				if sg.Dump.F.CRLF != (eol == "\r\n") {
 					c.T0 = gen.BinStr(gen.Junk(rr, &gen.JunkCfg{Separators: true}, rr.Intn(6), sg.Dump.EOL()))
 				}
